@@ -148,7 +148,7 @@ theorem realPrimeIter_specTo (e : Env) (he : GenSpec e) (hp hn : ℕ → ℕ) (h
 /-- the real iterator meets the C06 iterator contract at every position `≤ 2^63` (Bertrand: a prime in `(2^63, 2^64)`) -/
 theorem realPrimeIter_specTo_two63 (e : Env) (he : GenSpec e) (hp hn : ℕ → ℕ) (hhn : ∀ n, hn n ≤ umax) :
     (realPrimeIter e hp hn).SpecTo (2 ^ 63) :=
-  realPrimeIter_specTo e he hp hn hhn (2 ^ 63) (by unfold umax; omega) exists_prime_two63
+  realPrimeIter_specTo e he hp hn hhn (2 ^ 63) (by unfold umax; omega) exists_prime_ge_two63
 
 /-! ## `k` calls on ONE object = the position-indexed walk -/
 
